@@ -444,6 +444,38 @@ func init() {
 			}
 		}},
 		Stream{"structured.memberProduct", func(c *Ctx) { memberProduct(c, "structured.memberProduct") }},
+		Stream{"ceremony.origins", func(c *Ctx) {
+			// both ceremonies on client origins whose host has empty labels, trailing dots, only dots, … (the label walk must terminate)
+			hosts := []string{"www..example.org", ".example.org", "a.b..c.example.org:8443", "example.org.", "..", "a..b", "...example.org", ".", "example.org..", "x.", ".x"}
+			for _, rp := range []string{"https://example.org", "https://login.example.org", "https://org"} {
+				for _, h := range hosts {
+					s := newRegSpec(c.R, "none", algES256)
+					s.Origin, s.Client = rp, "https://"+h
+					op := buildRegistration(c.R, s).Op()
+					op["_dev"] = "origin-labels"
+					executors["register"](c, "ceremony.origins", op)
+					kp := genKeyPair(c.R, algES256)
+					as := newAuthSpec(c.R, rp, kp, c.R.Bytes(16), c.R.Bytes(8), kp.COSE(true))
+					as.Client = "https://" + h
+					aop := buildAssertion(c.R, as)
+					aop["_dev"] = "origin-labels"
+					executors["authenticate"](c, "ceremony.origins", aop)
+				}
+			}
+		}},
+		Stream{"structured.requirements", func(c *Ctx) {
+			// every single-requirement deviation of every format (emptied / shortened ASN.1 extensions, absent members, foreign chains, …):
+			// the verifiers must return, whatever they return
+			for i := 0; i < c.N(1, 20); i++ {
+				for f, devs := range formatRequirementDevs {
+					for _, dv := range devs {
+						for v := 0; v < 5; v++ {
+							attestCaseVar(c, "structured.requirements", f, []string{dv}, (i+v)%2 == 0, v)
+						}
+					}
+				}
+			}
+		}},
 		Stream{"structured.tpm", func(c *Ctx) {
 			// TPM structure fields: name without digest (handle / empty), wrong type, mismatched algorithms — behind a correct extraData
 			for i := 0; i < c.N(6, 200); i++ {
